@@ -207,3 +207,32 @@ Inductive spath (jumps : list ps) : nat -> ps -> Prop :=
 Definition run_stars (ops : list op) (sts : list ps) (stars : list (list nat)) (index : list nat) : nat :=
   if negb (stars_okb ops sts stars) then 4%nat
   else if negb (index_okb (length sts) stars index) then 5%nat else 0%nat.
+
+(* ---- ONE StarSet object over a history of operations (state machine) --------------------------
+   generate(N, originstates=o) returns at once only when BOTH N and the flag equal the object's
+   current range and flag, otherwise rebuilds everything (so the object always is what was requested last); `+= other` as modelled by sadd
+   (copies the other set when the own range is 0, no-op when the other's range is 0).
+   The look-up dictionary of the implementation is rebuilt from the state list on every rebuild, so
+   the model's look-up is `sindex` on the current list: no entry can outlive its state. *)
+Record sobj := mkObj { oN : nat; oo : bool; ost : list ps }.
+Inductive hop := HGen (N : nat) (o : bool) | HAdd (N : nat) (o : bool).
+Definition fresh_obj (jumps : list ps) (nsites N : nat) (o : bool) : sobj := mkObj N o (states jumps nsites N o).
+Definition hstep (jumps : list ps) (nsites : nat) (obj : sobj) (h : hop) : sobj :=
+  match h with
+  | HGen N o => if (if Nat.eqb N (oN obj) then Bool.eqb o (oo obj) else false) then obj else fresh_obj jumps nsites N o
+  | HAdd N o => if Nat.ltb N 1 then obj
+                else if Nat.ltb (oN obj) 1 then fresh_obj jumps nsites N o
+                else mkObj (oN obj + N) (oo obj) (sadd (ost obj) (states jumps nsites N o))
+  end.
+Definition hrun (jumps : list ps) (nsites N0 : nat) (o0 : bool) (h : list hop) : sobj :=
+  fold_left (hstep jumps nsites) h (fresh_obj jumps nsites N0 o0).
+
+(* the implementation's object after the same history, judged against the state machine AND as a
+   star set of its current range; codes as run_starset, 3 also when it differs from the machine *)
+Definition run_hist (jumps : list ps) (nsites N0 : nat) (o0 : bool) (h : list hop) (ops : list op)
+           (ists : list ps) (istars : list (list nat)) (iindex : list nat)
+           (qs : list (ps * option nat * option nat)) : nat :=
+  let obj := hrun jumps nsites N0 o0 h in
+  if negb (jumps_okb jumps) then 1%nat
+  else if negb (sameb ists (ost obj)) then 3%nat
+  else run_starset jumps nsites (oN obj) (oo obj) ops ists istars iindex qs.
